@@ -38,6 +38,8 @@ PROP = {
  'MT readers returned data again after they had reported an error': ('C09', 'error not sticky: a read() after the error returned reorder-buffer contents from behind the failed unit (found when calls-after-error were added to mt.fault/mt.drop/mt.corrupt)'),
  'finish() of the MT writers blocked forever': ('C09', 'finish() after a worker error already reported by write()/flush() reset the state to Finishing and waited in recv() forever (found when calls after an error and worker-rejected options were added to mt.fault)'),
  'XZReader accepted stream padding that is not a multiple of four at the end': ('C04', 'multi-stream file truncated inside the stream padding behind a stream (e.g. 11 zero bytes, then EOF) was read as complete: success with the later streams missing; also C12 (malformed padding). Found by corrupt.random truncations over multi-stream files; concat.xz now places malformed padding behind the last stream as well'),
+ 'encoder memory estimate ignored the literal coder': ('C17', 'LZMAOptions::get_memory_usage() had no lc/lp term: for an LZMA writer with lc + lp > 4 (up to 12) the literal coder (1.5 KiB x 2^(lc+lp), up to 6 MiB) was not counted and the peak exceeded the estimate. Found after a seeder (S-C17-3 notes) pointed out that mem.encoder only drew lc/lp within the LZMA2 limits; the scenario now draws lc 0..=8, lp 0..=4 for the LZMA writer'),
+ 'LZMA2Writer held two encoders at every independent chunk boundary': ('C17', 'with chunk_size set the new encoder was built while the old one was alive: peak about twice the estimate at every independent chunk. Found after the same notes; mem.encoder now writes in pieces and flushes at unit boundaries so that independent chunks really start'),
  'encoder memory estimate added the window size in bytes': ('C17', 'LZEncoder::get_memory_usage added bytes to KiB: 330716 KiB reported for a 0.9 MiB encoder'),
  'encoder memory estimate left out the three-byte hash table': ('C17', 'Hash234::get_mem_usage summed HASH2_MASK + HASH2_SIZE instead of HASH2_SIZE + HASH3_SIZE: estimate below the real peak for small dictionaries'),
  'out-of-range encoder options': ('C19', 'lc+lp>4, lp=5, pb=5, nice_len outside 8..=273, dict 0, delta distance 0, unaligned BCJ offsets, preset dictionary with XZ/LZIP: undecodable streams or panics'),
